@@ -44,6 +44,14 @@ def norm_literal(atom, pol):
             if lo is not None and hi is not None:
                 strict = n.startswith('Range::')
                 return [(('le', lo, x), True), (('lt' if strict else 'le', x, hi), True), (atom, True)]
+    # emptiness, however it is asked: is_empty(), len() == 0, last()/first() is None  ->  additional canonical literal (empty S)
+    if h == 'call' and atom[1].endswith('::is_empty') and len(atom) == 3:
+        return [(atom, pol), (('empty', atom[2]), pol)]
+    if h == 'eq' and ((atom[1] == ('const', 0) and isinstance(atom[2], tuple) and atom[2][0] == 'len') or (atom[2] == ('const', 0) and isinstance(atom[1], tuple) and atom[1][0] == 'len')):
+        S = atom[2][1] if atom[1] == ('const', 0) else atom[1][1]
+        return [(atom, pol), (('empty', S), pol)]
+    if h == 'is' and isinstance(atom[1], tuple) and len(atom[1]) == 3 and atom[1][0] == 'call' and atom[1][1] in ('slice::last', 'slice::first') and atom[2] in ('None', 'Some'):
+        return [(atom, pol)] + ([(('is', atom[1], TWO[atom[2]]), True)] if not pol else []) + [(('empty', atom[1][2]), (atom[2] == 'None') == pol)]
     if h == 'is':
         x, v = atom[1], atom[2]
         if isinstance(x, tuple) and x and x[0] == 'branch':
@@ -152,8 +160,64 @@ def must_literals(body):
     return val
 
 
-def path_literal_sets(body, target_bb, limit=10000):
-    """literal sets of every back-edge-free path entry -> target_bb (raises OverflowError beyond limit)"""
+def expand_dnf(body, lits):
+    """alternatives (list of literal tuples) equivalent to the conjunction `lits`, with Option combinators over a closure opened up:
+    x.is_some_and(|v| c(v))  true  -> x is Some, c(unwrap x)        false -> (x is None) | (x is Some, not c(unwrap x))
+    x.is_none_or(|v| c(v))   true  -> (x is None) | (x is Some, c)  false -> x is Some, not c"""
+    from . import inline as IN
+    alts = [()]
+    for (a, p) in lits:
+        opts = None
+        if isinstance(a, tuple) and a and a[0] == 'call' and a[1] in ('Option::is_some_and', 'Option::is_none_or') and len(a) == 4 and isinstance(a[3], tuple) and a[3][0] == 'closure':
+            x = a[2]
+            r = IN.closure_apply(body.facts, a[3], (('unwrap', x),))
+            if r is not None:
+                some = (('is', x, 'Some'), True)
+                none = (('is', x, 'None'), True)
+                if a[1] == 'Option::is_some_and':
+                    opts = [(some,) + tuple(norm_literal(r, True))] if p else [(none,), (some,) + tuple(norm_literal(r, False))]
+                else:
+                    opts = [(none,), (some,) + tuple(norm_literal(r, True))] if p else [(some,) + tuple(norm_literal(r, False))]
+        if opts is None:
+            opts = [((a, p),)]
+        alts = [x_ + o for x_ in alts for o in opts]
+    return alts
+
+
+def _bool_defs(body, b, bval):
+    """track boolean locals assigned in block b on the current path: local -> ('const', bool) | ('dag', DAG)"""
+    out = None
+    blk = body.blocks[b]
+    for si, s in enumerate(blk['stmts']):
+        pl = s['pl']
+        if pl['p']:
+            continue
+        l = pl['l']
+        if body.local_ty(l) != 'bool':
+            continue
+        rv = s['rv']
+        v = None
+        if rv['k'] == 'use':
+            o = rv['a']
+            if o['k'] == 'const':
+                c = body.dag().operand(o, b, si)
+                if c[0] == 'const' and isinstance(c[1], bool):
+                    v = ('const', c[1])
+            elif o['k'] in ('copy', 'move') and not o['pl']['p'] and o['pl']['l'] in (out if out is not None else bval):
+                v = (out if out is not None else bval)[o['pl']['l']]
+        if v is None:
+            d = simplify(body.dag().rvalue(rv, b, si))
+            v = ('dag', d) if not (d[0] in ('phi', 'loop')) else ('unknown',)
+        if out is None:
+            out = dict(bval)
+        out[l] = v
+    return out if out is not None else bval
+
+
+def path_literal_sets(body, target_bb, limit=10000, avoid=()):
+    """literal sets of every back-edge-free path entry -> target_bb (raises OverflowError beyond limit).
+    Path sensitive for boolean locals: `let flag = match x { None => true, Some(i) => cond(i) }; if flag {..}` contributes, on each
+    path, the literal of the arm that was taken (or prunes the infeasible edge when the arm assigned a constant)."""
     dom = body.dominators()
     edge = {}
     res = []
@@ -169,20 +233,46 @@ def path_literal_sets(body, target_bb, limit=10000):
             if x in dom.get(p, ()):  # back edge
                 continue
             work.append(p)
-    stack = [(0, frozenset())]
+    stack = [(0, frozenset(), {})]
     n = 0
     while stack:
-        b, lits = stack.pop()
+        b, lits, bval = stack.pop()
         if b == target_bb:
             res.append(lits)
             n += 1
             if n > limit:
                 raise OverflowError('too many paths')
             continue
+        if b in avoid:
+            continue
+        bval = _bool_defs(body, b, bval)
         if b not in edge:
             edge[b] = edge_literals(body, b)
+        t = body.blocks[b]['term']
+        tracked = None
+        if t['k'] == 'switch' and t['d']['k'] in ('copy', 'move') and not t['d']['pl']['p'] and t['d']['pl']['l'] in bval:
+            tracked = bval[t['d']['pl']['l']]
         for s in body.succ[b]:
             if s in dom.get(b, ()) or s not in can:
                 continue
-            stack.append((s, lits | frozenset(edge[b].get(s, ()))))
+            el = edge[b].get(s, ())
+            if tracked is not None and tracked[0] != 'unknown':
+                # polarity of this edge
+                pol = None
+                for v, tb in t['t']:
+                    if tb == s and int(v) in (0, 1):
+                        pol = bool(int(v))
+                if pol is None and s == t['else'] and len(t['t']) == 1 and int(t['t'][0][0]) in (0, 1):
+                    pol = not bool(int(t['t'][0][0]))
+                if pol is not None:
+                    if tracked[0] == 'const':
+                        if tracked[1] != pol:
+                            continue            # infeasible on this path
+                        el = ()
+                    else:
+                        el = tuple(norm_literal(tracked[1], pol))
+            for alt in expand_dnf(body, el):
+                stack.append((s, lits | frozenset(alt), bval))
     return res
+
+
